@@ -118,7 +118,8 @@ OBLIGATIONS = [
          assumptions=['S1', 'identity-content data']),
     dict(id='C02.1sf', impl='download', params=_P,
          pre=_PRE_SINGLE + ['0 <= a <= size and b == 0', '-1 <= f1 <= size', 'f2 == -1'],
-         cases=_cases(['single'], ['seekable', 'stream', 'path'], [1], [True]), timeout=(120, 900),
+         cases=_cases(['single'], ['seekable', 'stream', 'path'], [1], [True]), timeout=(150, 900),
+         splits=[['f1 == -1'], ['0 <= f1', 'size <= io'], ['0 <= f1', 'io < size <= 2 * io'], ['0 <= f1', '2 * io < size']],
          bounds='single GET; one retryable stream fault after a symbolic number of bytes; one symbolic short read',
          encodes=['GetObjectTask._main retry loop', 'StreamReaderProgress'], assumptions=['S1', 'identity-content data']),
     dict(id='C02.1r', impl='download', params=_P, pre=_PRE_RANGED + ['a == 0 and b == 0 and f1 == 0 and f2 == 0'],
@@ -131,7 +132,10 @@ OBLIGATIONS = [
     dict(id='C02.1rf', impl='download', params=_P,
          pre=['1 <= thr <= size', '1 <= chunk', 'size <= 2 * chunk', '1 <= io', 'chunk <= 2 * io',
               '0 <= a <= chunk and b == 0', '-1 <= f1 <= chunk', 'f2 == -1'],
-         cases=_cases(['ranged'], ['seekable', 'stream'], [1], [True]), timeout=(180, 1200),
+         cases=_cases(['ranged'], ['seekable', 'stream'], [1], [True]), timeout=(150, 1200),
+         splits=[['f1 == -1', 'size <= chunk'], ['f1 == -1', 'size > chunk'], ['0 <= f1', 'size <= chunk'],
+                 ['0 <= f1', 'size > chunk', 'chunk <= io'], ['0 <= f1 <= io', 'size > chunk', 'chunk > io'], ['io < f1', 'size > chunk', 'chunk > io']],
+         splits_thorough=[[]],
          pre_thorough=['1 <= thr <= size', '1 <= chunk', 'size <= 3 * chunk', '1 <= io', 'chunk <= 2 * io',
                        '0 <= a <= chunk and 0 <= b <= chunk', '-1 <= f1 <= chunk', '-1 <= f2 <= chunk'],
          cases_thorough=_cases(['ranged'], ['seekable', 'stream', 'path'], [1, 2], [True]),
